@@ -99,6 +99,58 @@ def no_stale_cache(ctx, rr):
             rr.fail(ctx.finding('R-NO-STALE-CACHE', u, node, 'a read-only request keeps index-derived state in %s.%s, which is not invalidated by the write '
                                 'request(s) %s: later queries answer from the stale copy' % (cls, attr, ', '.join(sorted(w.name for w in missing)[:6]))))
     rr.info['cached_attributes'] = ['%s.%s' % k for k in cached]
+    # other places where state survives a request: mutable default arguments, module-level containers mutated by functions,
+    # memoising decorators on functions that depend on the index
+    MUT = (ast.Dict, ast.List, ast.Set, ast.ListComp, ast.DictComp, ast.SetComp)
+    MUT_CALLS = {'dict', 'list', 'set', 'defaultdict', 'Counter', 'OrderedDict', 'deque', 'bytearray'}
+    nfun = 0
+    INDEXED = ('LRUTrie', 'LinkStore', 'LRUTrieNode', 'LinkStoreNode', 'Traph') + tuple(STORAGES)
+
+    def depends_on_index(u):
+        return u.cls in INDEXED or any(t.cls in INDEXED for t in _reach(P, u))
+    for u in P.units:
+        nfun += 1
+        a = u.node.args
+        for d in list(a.defaults) + [x for x in a.kw_defaults if x is not None]:
+            if (isinstance(d, MUT) or (isinstance(d, ast.Call) and isinstance(d.func, ast.Name) and d.func.id in MUT_CALLS)) and depends_on_index(u):
+                rr.ob(ctx.where(u, d), '%s has no mutable default argument' % u.qual, ok=False)
+                rr.fail(ctx.finding('R-NO-STALE-CACHE', u, d, '%s has the mutable default argument `%s`: it is created once and shared by every later request, so what one request '
+                                    'puts into it (memo, visited set) is seen by the next' % (u.qual, ast.unparse(d)[:30]), stmt='%s: mutable default' % u.qual))
+        for dec in u.node.decorator_list:
+            dn = ast.unparse(dec.func if isinstance(dec, ast.Call) else dec)
+            if dn.split('.')[-1] in ('lru_cache', 'cache', 'cached_property', 'memoize', 'memoized'):
+                dep = depends_on_index(u)
+                rr.ob(ctx.where(u, dec), '%s is not memoised across requests' % u.qual, ok=not dep)
+                if dep:
+                    rr.fail(ctx.finding('R-NO-STALE-CACHE', u, dec, '%s is memoised with @%s but its result depends on the index: a write request does not invalidate the memo' % (u.qual, dn),
+                                        stmt='%s: memoised' % u.qual))
+    for mod, tree in P.modules.items():
+        glob = {}
+        for st in tree.body:
+            if isinstance(st, ast.Assign) and len(st.targets) == 1 and isinstance(st.targets[0], ast.Name):
+                v = st.value
+                if isinstance(v, MUT) or (isinstance(v, ast.Call) and isinstance(v.func, ast.Name) and v.func.id in MUT_CALLS):
+                    glob[st.targets[0].id] = st
+        if not glob:
+            continue
+        for u in P.units:
+            if u.module != mod:
+                continue
+            local = set(u.params) | {n_ for a_ in P.own(u, ast.Assign) for t_ in a_.targets for n_ in names_in_target(t_)}
+            for x in P.own(u, (ast.Call, ast.Assign, ast.AugAssign, ast.Delete)):
+                hit = None
+                if isinstance(x, ast.Call) and isinstance(x.func, ast.Attribute) and isinstance(x.func.value, ast.Name) and x.func.value.id in glob \
+                        and x.func.value.id not in local and x.func.attr in CONTAINER_MUT:
+                    hit = x.func.value.id
+                elif not isinstance(x, ast.Call):
+                    for t in (x.targets if isinstance(x, (ast.Assign, ast.Delete)) else [x.target]):
+                        if isinstance(t, ast.Subscript) and isinstance(t.value, ast.Name) and t.value.id in glob and t.value.id not in local:
+                            hit = t.value.id
+                if hit and depends_on_index(u):
+                    rr.ob(ctx.where(u, x), 'module-level container %s is not used as request-spanning scratch state' % hit, ok=False)
+                    rr.fail(ctx.finding('R-NO-STALE-CACHE', u, x, '%s mutates the module-level container `%s`: it outlives the request (and the Traph object), so later requests and '
+                                        'other indexes see what this one left' % (u.qual, hit), stmt='%s: module state %s' % (u.qual, hit)))
+    rr.ob('package', 'no mutable default argument, memoising decorator or mutated module-level container in %d functions' % nfun, ok=True)
 
 
 def _node_identity(P, u, scope, node_var):
